@@ -70,6 +70,31 @@ def view_ints(mol):
     return out
 
 
+def sview_ints(mol):
+    """the `cmorgan` wire: like view_ints plus the stereo labels"""
+    from ..wire import tri
+    out = [len(mol._atoms)]
+    for n, a in mol._atoms.items():
+        ms = mol._bonds[n]
+        h = a._implicit_hydrogens
+        out += [n, a.atomic_number, a._isotope or 0, a._charge, int(a._is_radical), -1 if h is None else h,
+                int(a.in_ring), tri(a._stereo), len(ms)]
+        for m, b in ms.items():
+            out += [m, b.order, tri(getattr(b, '_stereo', None))]
+    return out
+
+
+def real_chiral_morgan(mol):
+    labelled = any(a._stereo is not None for a in mol._atoms.values()) or \
+        any(b._stereo is not None for _, _, b in mol.bonds())
+    if labelled:
+        return 'notmodelled'
+    try:
+        return ' '.join(['ok'] + [f'{n} {i}' for n, i in mol._chiral_morgan.items()])
+    except Exception as e:  # noqa
+        return _err(e)
+
+
 def _err(e):
     return ('err ' if type(e) is KeyError else 'crash ') + type(e).__name__
 
@@ -110,7 +135,7 @@ def molecules(ctx):
     """(name, mol) stream for the K streams."""
     rng = ctx.rng
     out = list(molgen.handmade())
-    out += molgen.corpus(rng, 150 if ctx.quick else 1500)
+    out += molgen.corpus(rng, 300 if ctx.quick else 1500)
     n_small = 5 if ctx.quick else 6
     graphs = [g for k in range(2, n_small + 1) for g in molgen.unlabeled_small_graphs(k)]
     for g in graphs:
@@ -202,6 +227,10 @@ def k_streams(ctx):
             line = 'order ' + ' '.join(map(str, xs))
             add('order', line, real_order(m), line, len(m) >= 2, vname)
             ctx.dist('order:atoms<=%d' % (10 * ((len(m) + 9) // 10)))
+            line = 'cmorgan ' + ' '.join(map(str, sview_ints(m)))
+            exp = real_chiral_morgan(m)
+            add('cmorgan', line, exp, line, len(m) >= 2 and exp != 'notmodelled', vname)
+            ctx.dist('cmorgan:' + ('stereo-labelled (outside the model)' if exp == 'notmodelled' else 'label-free'))
         for n, a in mol._atoms.items():
             h = a._implicit_hydrogens
             key = (a.atomic_number, a._isotope or 0, a._charge, int(a._is_radical), -1 if h is None else h, int(a.in_ring))
@@ -209,6 +238,25 @@ def k_streams(ctx):
                 continue
             seen_atoms.add(key)
             add('hash', 'hash ' + ' '.join(map(str, key)), f'ok {hash(a)}', ('hash', key), True, f'{name}:{n}')
+    # exhaustive: ALL n! numberings of every small molecule (insertion order follows the new numbers)
+    nmax = 5 if ctx.quick else 6
+    small = [(name, mol) for name, mol in mols if 2 <= len(mol) <= nmax]
+    seen_small = set()
+    for name, mol in small:
+        key0 = tuple(view_ints(mol))
+        if key0 in seen_small:
+            continue
+        seen_small.add(key0)
+        nums = list(mol._atoms)
+        for perm in itertools.permutations(range(1, len(nums) + 1)):
+            try:
+                m = permuted(mol, dict(zip(nums, perm)))
+            except Exception:  # noqa
+                break
+            line = 'order ' + ' '.join(map(str, view_ints(m)))
+            add('order', line, real_order(m), line, True, f'{name}@{perm}')
+            ctx.dist('order:all-permutations')
+    _state['small'] = small
     for _ in range(300 if ctx.quick else 5000):
         ws, rows = random_morgan_case(rng)
         line = morgan_line(ws, rows)
@@ -219,7 +267,7 @@ def k_streams(ctx):
         t = [rng.choice([rng.randint(-5, 5), rng.randint(-2 ** 70, 2 ** 70), -1, 2 ** 61 - 1, -(2 ** 61 - 1)])
              for _ in range(rng.randint(0, 9))]
         add('tuple', 'tuple ' + ' '.join(map(str, t)), f'ok {hash(tuple(t))}', ('tuple', tuple(t)), True, 'hash(tuple)')
-    ctx.cov['programs'] = 4  # Morgan.atoms_order(+int_adjacency), _morgan, Element.__hash__, hash(tuple)
+    ctx.cov['programs'] = 5  # Morgan.atoms_order(+int_adjacency), _morgan, _chiral_morgan (label-free), Element.__hash__, hash(tuple)
     if not ctx.build_ok:
         ctx.notes.append('driver not built: K streams skipped')
         return
@@ -240,6 +288,7 @@ def k_streams(ctx):
     for op, items in bad.items():
         what, line, exp, g = min(items, key=lambda t: len(t[1]))
         ctx.broke('correspondence', {'order': 'Morgan.atoms_order', 'morgan': '_morgan', 'hash': 'Element.__hash__',
+                                     'cmorgan': 'MoleculeStereo._chiral_morgan',
                                      'tuple': 'hash(tuple)'}[op],
                   f'{len(items)} disagreement(s); smallest: {what}\n request: {line}\n implementation: {exp}\n model: {g}')
     _state['k_bad'] = bad
@@ -556,6 +605,25 @@ def reorder(rng, mol):
     Stereo labels are stored relative to the neighbour *insertion order*, so they are re-expressed for the new order
     (tetrahedra: permutation parity computed here; double bonds / allenes: the library's sign translation)."""
     c, mapping = molgen.renumber(rng, mol)
+    return _restereo(mol, c, mapping), mapping
+
+
+def permuted(mol, mapping):
+    """Same structure under the given renumbering; atoms and neighbours inserted in increasing NEW number."""
+    c = mol.copy()
+    c.remap(mapping)
+    order = sorted(c._atoms)
+    atoms = {n: c._atoms[n] for n in order}
+    adj = {n: {m: c._bonds[n][m] for m in sorted(c._bonds[n])} for n in order}
+    c._atoms, c._bonds = atoms, adj
+    c.flush_cache()
+    c._changed = None
+    c._backup = None
+    c.calc_labels()
+    return _restereo(mol, c, mapping)
+
+
+def _restereo(mol, c, mapping):
     inv = {v: k for k, v in mapping.items()}
     st, sa, sc = mol.stereogenic_tetrahedrons, mol.stereogenic_allenes, mol.stereogenic_cis_trans
     new_a, new_b = {}, {}
@@ -589,7 +657,7 @@ def reorder(rng, mol):
     for (i, j), s in new_b.items():
         c._bonds[i][j]._stereo = s
     c.flush_cache()
-    return c, mapping
+    return c
 
 
 def normalise(mol):
@@ -701,6 +769,8 @@ def compare(ctx, name, base, s0, h0, kind, other, detail):
     else:
         sig = classify_failure(base, s0, s1)
     ctx.cov['disagreements_checked'] += 1
+    if sig in (KF_COMPONENT, KF_TIE) and sum(1 for x in ctx.notes if x.startswith('known finding met')) < 12:
+        ctx.notes.append(f'known finding met in the relational stream ({sig.split("/")[-1]}): {name} [{kind}]: {s0} vs {s1}')
     ctx.fail(sig, f'{kind}: {name}: {s0!r} vs {s1!r}; ==: {eq}; hash equal: {h0 == h1}',
              {'kind': 'two-descriptions', 'how': kind, 'name': name, 'a': wire.mol_to_ints(base), 'b': wire.mol_to_ints(other),
               'str_a': s0, 'str_b': s1, 'detail': str(detail)[:300]})
@@ -716,7 +786,7 @@ def relational_molecules(ctx):
         if m is not None:
             out.append((s, s, m))
     smis = molgen.corpus_smiles()
-    for i in rng.sample(range(len(smis)), 220 if ctx.quick else 2500):
+    for i in rng.sample(range(len(smis)), 500 if ctx.quick else 2500):
         m = molgen.parse(smis[i])
         if m is not None:
             out.append((f'corpus[{i}]', smis[i], m))
@@ -727,7 +797,7 @@ def relational_molecules(ctx):
                 out.append((f'small{g}', None, molgen.decorate(rng, list(g))))
             except Exception:  # noqa
                 continue
-    for i in range(60 if ctx.quick else 600):
+    for i in range(150 if ctx.quick else 600):
         e = molgen.ring_assembly(rng, max_rings=3)
         try:
             out.append((f'rings#{i}', None, molgen.decorate(rng, e, hetero=0.2, multiple=0.1, charge=0.03)))
@@ -736,9 +806,25 @@ def relational_molecules(ctx):
     return out
 
 
+def relational_molecules_small(ctx, nmax):
+    out = []
+    for s in molgen.HANDMADE + SYMMETRIC:
+        m = molgen.parse(s)
+        if m is not None and 2 <= len(m) <= nmax:
+            out.append((s, s, m))
+    for k in range(2, nmax + 1):
+        for g in molgen.unlabeled_small_graphs(k):
+            for rep in range(2):
+                try:
+                    out.append((f'small{g}#{rep}', None, molgen.decorate(ctx.rng, list(g))))
+                except Exception:  # noqa
+                    continue
+    return out
+
+
 def relational(ctx, mols=None, nvar=None):
     rng = ctx.rng
-    nren = nvar or (2 if ctx.quick else 4)
+    nren = nvar or (3 if ctx.quick else 4)
     for name, text, raw in (mols if mols is not None else relational_molecules(ctx)):
         try:
             base = normalise(raw)
@@ -781,6 +867,31 @@ def relational(ctx, mols=None, nvar=None):
                     ctx.dist('R:skipped:rdkit-spelling-changes-atoms-or-stereo-count')
                     continue
                 compare(ctx, name, base, s0, h0, 'reread-rdkit-' + ('kekule' if kek else 'aromatic'), m2, t)
+    if mols is None:
+        # exhaustive: the canonical string under ALL n! numberings of every small molecule
+        nmax = 5 if ctx.quick else 6
+        done = set()
+        for name, text, raw in relational_molecules_small(ctx, nmax):
+            try:
+                base = normalise(raw)
+                if in_domain(base):
+                    continue
+            except Exception:  # noqa
+                continue
+            s0, h0 = describe(base)
+            if s0 in done:
+                continue
+            done.add(s0)
+            nums = list(base._atoms)
+            for perm in itertools.permutations(range(1, len(nums) + 1)):
+                try:
+                    c = permuted(base, dict(zip(nums, perm)))
+                except Exception as e:  # noqa
+                    ctx.dist('R:skipped:permuted:' + type(e).__name__)
+                    break
+                compare(ctx, name, base, s0, h0, 'all-permutations', c, perm)
+        ctx.notes.append(f'exhaustive sub-domain: all n! numberings of every small molecule (<= {nmax} atoms) of the run, '
+                         'for atoms_order (K) and for the canonical string (R); the property domain as a whole is sampled')
     ctx.cov['programs'] = ctx.cov.get('programs', 0) + 3  # Smiles.__str__, __eq__, __hash__
 
 
